@@ -122,7 +122,7 @@ def negate_key(f):
     
 def lcm(a, b):
     """Return least common multiple"""
-    return a * b / gcd(a, b)
+    return a * b // gcd(a, b)
 
 def combine_real_factoid(i, f1, f2):
     """
@@ -136,7 +136,7 @@ def combine_real_factoid(i, f1, f2):
     assert f1[i] > 0 and f2[i] < 0 and i < len(f1) - 1, "combine_real_factoid"
     c0, d0 = f1[i], -f2[i]
     g = gcd(c0, d0)
-    c, d = int(c0 / g), int(d0 / g)
+    c, d = c0 // g, d0 // g
     real_factoid = [c * n + d * m for m, n in zip(f1, f2)]
     return Factoid(real_factoid)
 
@@ -512,12 +512,12 @@ def extend_vmap(db, i, vmap):
             coeff = fk[i]
 
             if coeff < 0: #upper case
-                c = floor(c0/(-coeff))
+                c = c0 // (-coeff)
                 if upper is None or c < upper:
                     upper = c
             
             elif coeff > 0: #lower case
-                c = ceil(-(c0/(coeff)))
+                c = -(c0 // coeff)
                 if lower is None or c > lower:
                     lower = c
     
@@ -573,7 +573,7 @@ def extend_cross_product(db, is_exact, i, lowers, uppers):
             # Reduce gcd
             g = functools.reduce(gcd, df.factoid[:-1])
             if g > 1:
-                elim_gcd_factoid = [floor(i / g) for i in df.factoid]
+                elim_gcd_factoid = [i // g for i in df.factoid]
                 df = dfactoid(Factoid(elim_gcd_factoid), GCDCheck(df.deriv))
 
             if df.factoid.is_true_factoid():
@@ -634,9 +634,9 @@ def solve(em, db, width):
         vmap = r.store
         def mapthis(df):
             if has_up:
-                return floor(-df.factoid.eval_factoid_except(vmap, j)/df.factoid[j])
+                return (-df.factoid.eval_factoid_except(vmap, j)) // df.factoid[j]
             else:
-                return ceil(-df.factoid.eval_factoid_except(vmap, j)/df.factoid[j])
+                return -(df.factoid.eval_factoid_except(vmap, j) // df.factoid[j])
         evaluated = [mapthis(df) for df in elim]
         if has_up:
             r.update({j:min(evaluated)})
@@ -802,8 +802,8 @@ class OmegaHOL:
         assert g > 1
         pt1 = proofterm.ProofTerm('int_const_ineq', term.Int(g) > term.Int(0))
         pt2 = pt
-        elim_gcd_fact = [floor(i / g) for i in fact]
-        if int(fact[-1] / g) != fact[-1] / g:    
+        elim_gcd_fact = [i // g for i in fact]
+        if fact[-1] % g != 0:
             elim_gcd_no_constant = sum([c * v for c, v in zip(elim_gcd_fact[1:-1], vars[1:])], elim_gcd_fact[0] * vars[0])
             original_no_constant = sum([c * v for c, v in zip(fact[1:-1], vars[1:])], fact[0] * vars[0])
             
@@ -812,7 +812,7 @@ class OmegaHOL:
 
             pt3 = integer.int_norm_conv().get_proof_term(g * elim_gcd_no_constant).transitive(
                         integer.int_norm_conv().get_proof_term(original_no_constant).symmetric())
-            n = floor(-fact[-1] / g)
+            n = (-fact[-1]) // g
             pt4 = proofterm.ProofTerm('int_const_ineq', term.Int(g) * term.Int(n) + fact[-1] < 0)
             pt5 = proofterm.ProofTerm('int_const_ineq', term.Int(g) * (term.Int(n) + term.Int(1)) + fact[-1] > 0)
             pt6 = integer.int_eval_conv().get_proof_term(-(term.Int(n) + term.Int(1)))
@@ -859,7 +859,7 @@ class OmegaHOL:
             i, l1, l2 = res.i, self.handle_unsat_result(res.deriv1), self.handle_unsat_result(res.deriv2)
             c1, c2 = term_to_factoid(self.vars, l1.prop)[i], term_to_factoid(self.vars, l2.prop)[i]
             g = gcd(c1, c2)
-            return self.real_combine_pt(l1, l2, int(c2/g), int(c1/g))
+            return self.real_combine_pt(l1, l2, c2 // g, c1 // g)
         
         elif isinstance(res, GCDCheck):
             return self.gcd_pt(self.vars, self.handle_unsat_result(res.deriv))
